@@ -491,6 +491,11 @@ class StoreRun:
                 else:
                     outcome["value"] = v
                     t.state = "cancelled"
+                    # the withdrawal itself may grant other requests (synchronously): oracles that keep a model of who
+                    # holds what must see the release before those grants are reported
+                    for o in self.oracles:
+                        if hasattr(o, "on_cancel"):
+                            o.on_cancel(self, t, outcome["was"])
         elif k == "peek":
             # read-only part of the public edge API: looking must not change anything (every oracle goes on as if
             # nothing had happened)
